@@ -173,6 +173,10 @@ struct Table {
     /// upvalues that re-schedules itself, started inside `mk`), the counter read through a getter closure.
     /// Requires: task i's body is exactly one unguarded `ti@(now+p)`, one global `ti@t0` per task, nothing from dsp.
     closure_style: bool,
+    /// `selK(t, v)` is rendered with DEEPER captures (suffix `d` of the task count; same ideal behaviour): even `K` — the scheduled
+    /// closure calls a `let`-bound closure `f` (captured through its cell) which captures `v`; odd `K` — it captures a
+    /// tuple argument `(v, t)`. On WASM the record, the cell, the inner record / the tuple all have to outlive the body.
+    deep: bool,
     ntasks: usize,
     global: Vec<Req>,
     tasks: Vec<Vec<Req>>,
@@ -229,7 +233,7 @@ fn table_to_string(t: &Table) -> String {
         "P\t{}\t{}{}\t{}\t{}\t{}",
         t.ticks,
         t.ntasks,
-        if t.closure_style { "c" } else { "" },
+        if t.closure_style { "c" } else if t.deep { "d" } else { "" },
         reqs_to_string(&t.global),
         t.tasks.iter().map(|v| reqs_to_string(v)).collect::<Vec<_>>().join(";"),
         reqs_to_string(&t.dsp)
@@ -240,7 +244,8 @@ fn parse_table(f: &[&str]) -> Table {
     Table {
         ticks: f[1].parse().unwrap(),
         closure_style: f[2].ends_with('c'),
-        ntasks: f[2].trim_end_matches('c').parse().unwrap(),
+        deep: f[2].ends_with('d'),
+        ntasks: f[2].trim_end_matches(['c', 'd']).parse().unwrap(),
         global: parse_reqs(f[3]),
         tasks: f[4].split(';').map(parse_reqs).collect(),
         dsp: parse_reqs(f[5]),
@@ -301,10 +306,18 @@ fn table_to_source(t: &Table) -> String {
         // helper making a closure with one upvalue (defined after tK: no forward references)
         let has_sel = t.global.iter().chain(t.dsp.iter()).chain(t.tasks.iter().flatten()).any(|r| r.upv.is_some() && r.target == i);
         if has_sel {
-            s += &format!(
-                "fn sel{i}(t, v){{\n    (| |{{ if (v > 0.5) {{ t{i}() }} else {{ t{}() }} }})@t\n}}\n",
-                i.saturating_sub(1)
-            );
+            let j = i.saturating_sub(1);
+            if !t.deep {
+                s += &format!("fn sel{i}(t, v){{\n    (| |{{ if (v > 0.5) {{ t{i}() }} else {{ t{j}() }} }})@t\n}}\n");
+            } else if i % 2 == 0 {
+                s += &format!(
+                    "fn sel{i}(t, v){{\n    let f = | |{{ if (v > 0.5) {{ t{i}() }} else {{ t{j}() }} }}\n    (| |{{ f() }})@t\n}}\n"
+                );
+            } else {
+                s += &format!(
+                    "fn pick{i}(p:(float,float)){{\n    (| |{{ if (p.0 > 0.5) {{ t{i}() }} else {{ t{j}() }} }})@(p.1)\n}}\nfn sel{i}(t, v){{\n    pick{i}((v, t))\n}}\n"
+                );
+            }
         }
     }
     for r in &t.global {
@@ -464,9 +477,10 @@ fn ideal_total(t: &Table, cap: u64) -> Option<u64> {
     Some(total)
 }
 
-/// `ntargets`: the request names one of `t0 .. t(ntargets-1)` (mimium has no forward references: a body can only name itself and earlier functions)
-/// The same count for the WASM runtime as it stands (finding F17: a pending task runs whatever function was last
-/// written at its closure address), so that generated programs stay small on that runtime too. Generator-side filter only.
+/// The same count under the OLD memory discipline of the WASM runtime (finding F17, repaired: a pending task ran whatever
+/// function was last written at its closure address). NOT a filter any more: it only tells the Lean driver whether evaluating
+/// the memory model of that discipline (`M.run` / `R.run`, a statistic since the repair) is affordable — under it the task
+/// population of some tables explodes.
 fn wasm_total(t: &Table, cap: u64) -> Option<u64> {
     use std::cmp::Reverse;
     use std::collections::{BinaryHeap, HashMap};
@@ -568,9 +582,16 @@ fn wasm_total(t: &Table, cap: u64) -> Option<u64> {
     Some(total)
 }
 
-/// captured floats of `selK(t, v)` requests; their low 32 bits are far outside any function table
-const UPVS: [f64; 4] = [0.7, 0.3, 0.9, 0.1];
+/// 9th field of a `P` line: `m` = the driver may evaluate the memory model of the old discipline on this table, `-` = too costly
+fn old_discipline_flag(t: &Table) -> &'static str {
+    if wasm_total(t, WEIGHT - 1).is_some() { "m" } else { "-" }
+}
 
+/// captured floats of `selK(t, v)` requests; the low 32 bits of 1.0 and 0.0 are 0, a valid function-table index (under the
+/// old bump discipline of finding F17 such a word, read as a function word, re-ran the global initialiser)
+const UPVS: [f64; 6] = [0.7, 0.3, 0.9, 0.1, 1.0, 0.0];
+
+/// `ntargets`: the request names one of `t0 .. t(ntargets-1)` (mimium has no forward references: a body can only name itself and earlier functions)
 /// `upv_targets > 0`: with probability 1/3 the request is `selK(time, v)` (closure with one upvalue), `K < upv_targets`
 fn gen_req(rng: &mut Rng, ntargets: usize, ticks: u64, abs: bool, boundary: bool, must_guard: bool, upv_targets: usize) -> Req {
     let target = rng.below(ntargets as u64) as usize;
@@ -592,18 +613,19 @@ fn gen_req(rng: &mut Rng, ntargets: usize, ticks: u64, abs: bool, boundary: bool
 
 fn gen_table(rng: &mut Rng, ticks: u64) -> Table {
     if rng.chance(1, 12) {
-        // fixture shape (`scheduler_counter.mmm`) with a random period and start; a single instance, because several
-        // instances of one closure-making function share their captured cells on the WASM backend (observation F18)
-        let p = (1 + rng.below(6)) as f64 + *rng.pick(&FRACS);
-        let t0 = (1 + rng.below(8)) as f64 + *rng.pick(&FRACS);
-        return Table {
-            ticks,
-            closure_style: true,
-            ntasks: 1,
-            global: vec![Req { abs: true, c: t0, target: 0, guard: None, lambda: false, upv: None }],
-            tasks: vec![vec![Req { abs: false, c: p, target: 0, guard: None, lambda: false, upv: None }]],
-            dsp: vec![],
-        };
+        // fixture shape (`scheduler_counter.mmm`) with random periods and starts: 1-3 instances of ONE closure-making
+        // function (each instance owns its captured `x` and its `letrec` self reference; they shared them on WASM
+        // before the repair of observation F18)
+        let n = 1 + rng.below(3) as usize;
+        let mut global = vec![];
+        let mut tasks = vec![];
+        for i in 0..n {
+            let p = (1 + rng.below(6)) as f64 + *rng.pick(&FRACS);
+            let t0 = (1 + rng.below(8)) as f64 + *rng.pick(&FRACS);
+            global.push(Req { abs: true, c: t0, target: i, guard: None, lambda: false, upv: None });
+            tasks.push(vec![Req { abs: false, c: p, target: i, guard: None, lambda: false, upv: None }]);
+        }
+        return Table { ticks, closure_style: true, deep: false, ntasks: n, global, tasks, dsp: vec![] };
     }
     loop {
         let ntasks = 1 + rng.below(4) as usize;
@@ -654,8 +676,8 @@ fn gen_table(rng: &mut Rng, ticks: u64) -> Table {
             let abs = rng.chance(1, 10);
             dsp.push(gen_req(rng, ntasks, ticks, abs, b, false, if upv { ntasks } else { 0 }));
         }
-        let t = Table { ticks, closure_style: false, ntasks, global, tasks, dsp };
-        if ideal_total(&t, WEIGHT - 1).is_some() && wasm_total(&t, WEIGHT - 1).is_some() {
+        let t = Table { ticks, closure_style: false, deep: upv && rng.chance(1, 2), ntasks, global, tasks, dsp };
+        if ideal_total(&t, WEIGHT - 1).is_some() {
             return t;
         }
     }
@@ -697,7 +719,7 @@ fn main() {
             for _ in 0..n {
                 let t = gen_table(&mut rng, ticks);
                 let src = table_to_source(&t);
-                writeln!(out, "{}\t{}\t{}", table_to_string(&t), run_vm(&src, ticks), run_wasm(&src, ticks)).unwrap();
+                writeln!(out, "{}\t{}\t{}\t{}", table_to_string(&t), run_vm(&src, ticks), run_wasm(&src, ticks), old_discipline_flag(&t)).unwrap();
             }
         }
         "prog-lines" => {
@@ -713,7 +735,7 @@ fn main() {
                 if show {
                     eprintln!("{src}");
                 }
-                writeln!(out, "{}\t{}\t{}", table_to_string(&t), run_vm(&src, t.ticks), run_wasm(&src, t.ticks)).unwrap();
+                writeln!(out, "{}\t{}\t{}\t{}", table_to_string(&t), run_vm(&src, t.ticks), run_wasm(&src, t.ticks), old_discipline_flag(&t)).unwrap();
             }
         }
         "src" => {
